@@ -97,6 +97,7 @@ fn hist_cfg_for(seed: u64, m: &HashMap<String, String>) -> hist::HistCfg {
         bias_snap: m.contains_key("snap-bias"),
         bias_compact: m.contains_key("compact-bias"),
         bias_reopen: m.contains_key("reopen-bias"),
+        bias_seek: m.contains_key("seek-bias"),
         descriptors: m.contains_key("descriptors"),
         walks: m.contains_key("walks"),
         early_reopen: m.contains_key("early-reopen"),
